@@ -31,7 +31,7 @@ func SpanToJSONSpan(span *v1.Span) *model.JSONSpan {
 				StringValue string `json:"stringValue"`
 			}{},
 		}
-		switch attr.Value.Value.(type) {
+		switch attr.Value.GetValue().(type) {
 		case *v12.AnyValue_StringValue:
 			_attr.Value.StringValue = attr.Value.GetStringValue()
 			break
@@ -48,7 +48,7 @@ func SpanToJSONSpan(span *v1.Span) *model.JSONSpan {
 			_attr.Value.StringValue = base64.StdEncoding.EncodeToString(attr.Value.GetBytesValue())
 			break
 		default:
-			bVal, _ := json.Marshal(attr.Value.Value)
+			bVal, _ := json.Marshal(attr.Value.GetValue())
 			_attr.Value.StringValue = string(bVal)
 			break
 		}
